@@ -229,3 +229,38 @@ def run_algo(case, algo, policy="all", **kw):
         return {"err": "cost:" + type(e).__name__, "msg": str(e)[:200]}
     return {"cost": costs[0] if len(costs) == 1 else (None if not costs else costs), "sols": sols,
             "outs": outs}
+
+
+def derive_case(inp, costs=None, fidx=None):
+    """Canonical case of an actual (Super)ReconciliationInput (e.g. a binarised one)."""
+    if fidx is None:
+        fidx = lambda name: ("abcdefghijklmnopqrstuvwxyz".index(name) if len(name) == 1 else int(name[1:]))
+    sfwd, _ = index_tree(inp.species_lca.tree)
+    syn = getattr(inp, "leaf_syntenies", None)
+
+    def sshape(node):
+        return [sshape(c) for c in node.children]
+
+    def oshape(node):
+        if node.is_leaf():
+            d = {"s": sfwd[inp.leaf_object_species[node]]}
+            if syn is not None and node in syn:
+                d["f"] = [fidx(f) for f in syn[node]]
+            return d
+        return [oshape(c) for c in node.children]
+
+    case = {"S": sshape(inp.species_lca.tree), "O": oshape(inp.object_tree)}
+    if costs is not None:
+        case["costs"] = costs
+    if syn is not None and inp.object_tree in syn and not inp.object_tree.is_leaf():
+        case["root"] = [fidx(f) for f in syn[inp.object_tree]]
+    return case
+
+
+def leaf_data_by_name(inp):
+    """{leaf name: (species name, synteny)} of an input: what refinements must preserve."""
+    syn = getattr(inp, "leaf_syntenies", {}) or {}
+    return {
+        leaf.name: (inp.leaf_object_species[leaf].name, tuple(syn.get(leaf, ())))
+        for leaf in inp.object_tree.get_leaves()
+    }
